@@ -11,6 +11,7 @@ import (
 	"math"
 	"math/rand"
 	"strconv"
+	"strings"
 	"time"
 
 	"github.com/uhn/ggql/pkg/ggql"
@@ -404,6 +405,9 @@ func coerceExec(input sx.S) (obs sx.S) {
 	if l[1].(string) == "outx" {
 		return coerceSliceExec(l)
 	}
+	if strings.HasPrefix(l[1].(string), "req") {
+		return coerceReqExec(l)
+	}
 	root := ggql.NewRoot(nil)
 	if err := root.ParseString(coerceSDL); err != nil {
 		return sx.L("schema-error", sx.Hex(err.Error()))
@@ -433,6 +437,204 @@ func coerceExec(input sx.S) (obs sx.S) {
 		return sx.L("err")
 	}
 	return sx.L("ok", canonOut(out, l[3]))
+}
+
+// ---- C04 end to end: the value travels through a request (as a literal, or as the value of a
+// variable) to the argument a resolver receives ----
+
+const coerceReqSDL = `
+enum T30 { E1 E2 E3 }
+input T41 { a1: Int a2: T30 }
+input T40 { a1: Int! a2: String = "s1" a3: [Int!] a4: T41 a5: Boolean }
+`
+
+// sdlType: the type expression can be written in SDL (the coercion objects also nest NonNull in NonNull)
+func sdlType(t sx.S) bool {
+	switch sx.Head(t) {
+	case "l":
+		return sdlType(sx.List(t)[1])
+	case "nn":
+		in := sx.List(t)[1]
+		return sx.Head(in) != "nn" && sdlType(in)
+	}
+	return true
+}
+
+func coerceTypeText(t sx.S) string {
+	l := sx.List(t)
+	switch sx.Head(t) {
+	case "sc":
+		return l[1].(string)
+	case "enum":
+		return "T30"
+	case "input":
+		return "T" + l[1].(string)
+	case "l":
+		return "[" + coerceTypeText(l[1]) + "]"
+	case "nn":
+		return coerceTypeText(l[1]) + "!"
+	}
+	panic("bad type")
+}
+
+// coerceLitText writes the value as a request literal when the request syntax can denote exactly
+// this Go value (the reader yields int64, float64, string, bool, Symbol, nil, lists and objects)
+func coerceLitText(v sx.S) (string, bool) {
+	if a, ok := v.(string); ok {
+		return "null", a == "nil"
+	}
+	l := sx.List(v)
+	switch sx.Head(v) {
+	case "i":
+		return l[2].(string), l[1].(string) == "int64"
+	case "f":
+		f, w32 := floatByID(sx.Int(l[1]))
+		if w32 || math.IsNaN(f) || math.IsInf(f, 0) {
+			return "", false
+		}
+		return strconv.FormatFloat(f, 'e', -1, 64), true
+	case "s":
+		t := stringZoo[sx.Int(l[1])]
+		if strings.ContainsAny(t, "\"\\\n") {
+			return "", false
+		}
+		return `"` + t + `"`, true
+	case "b":
+		if l[1].(string) != "0" {
+			return "true", true
+		}
+		return "false", true
+	case "sym":
+		return "E" + l[1].(string), true
+	case "l":
+		parts := []string{}
+		for _, x := range l[1:] {
+			t, ok := coerceLitText(x)
+			if !ok {
+				return "", false
+			}
+			parts = append(parts, t)
+		}
+		return "[" + strings.Join(parts, ", ") + "]", true
+	case "m":
+		parts := []string{}
+		for _, kv := range l[1:] {
+			kvl := sx.List(kv)
+			t, ok := coerceLitText(kvl[1])
+			if !ok {
+				return "", false
+			}
+			parts = append(parts, "a"+kvl[0].(string)+": "+t)
+		}
+		return "{" + strings.Join(parts, ", ") + "}", true
+	}
+	return "", false
+}
+
+// decoyDefault: a default of the right type that none of the zoo values coerces to
+func decoyDefault(t sx.S) string {
+	l := sx.List(t)
+	switch sx.Head(t) {
+	case "nn":
+		return decoyDefault(l[1])
+	case "l":
+		return "[]"
+	case "enum":
+		return "E2"
+	case "input":
+		if l[1].(string) == "40" {
+			return "{a1: 77}"
+		}
+		return "{a1: 77}"
+	case "sc":
+		switch l[1].(string) {
+		case "Int", "Int64":
+			return "77"
+		case "Float", "Float64":
+			return "77.5"
+		case "Boolean":
+			return "true"
+		case "Time":
+			return `"2001-02-03T04:05:06Z"`
+		}
+	}
+	return `"decoy"`
+}
+
+type reqRoot struct {
+	called bool
+	arg    interface{}
+}
+
+func (r *reqRoot) Resolve(f *ggql.Field, args map[string]interface{}) (interface{}, error) {
+	switch f.Name {
+	case "query":
+		return r, nil
+	case "f":
+		r.called = true
+		r.arg = args["a"]
+		return 1, nil
+	}
+	return nil, nil
+}
+
+func coerceReqExec(l []sx.S) sx.S {
+	rr := &reqRoot{}
+	root := ggql.NewRoot(rr)
+	tt := coerceTypeText(l[2])
+	if err := root.ParseString(coerceReqSDL + "type Query { f(a: " + tt + "): Int }\n"); err != nil {
+		return sx.L("schema-error", sx.Hex(err.Error()))
+	}
+	wantTime = false
+	for t := l[2]; ; t = sx.List(t)[1] {
+		if h := sx.Head(t); h != "l" && h != "nn" {
+			wantTime = h == "sc" && sx.List(t)[1].(string) == "Time"
+			break
+		}
+	}
+	var res map[string]interface{}
+	switch dir := l[1].(string); dir {
+	case "reql":
+		lit, ok := coerceLitText(l[3])
+		if !ok {
+			return sx.L("not-a-literal")
+		}
+		res = root.ResolveString("{ f(a: "+lit+") }", "", nil)
+	case "reqv":
+		res = root.ResolveString("query($v: "+tt+") { f(a: $v) }", "", map[string]interface{}{"v": coerceGoValue(l[3])})
+	case "reqd0", "reqd1", "reqd2", "reqd3":
+		// the value is the default of the second variable; the caller gives no value for it
+		lit, ok := coerceLitText(l[3])
+		if !ok {
+			return sx.L("not-a-literal")
+		}
+		var vars map[string]interface{}
+		switch dir {
+		case "reqd1":
+			vars = map[string]interface{}{}
+		case "reqd2":
+			vars = map[string]interface{}{"u": 3}
+		case "reqd3":
+			vars = map[string]interface{}{"u": 3, "v": nil}
+		}
+		res = root.ResolveString("query($u: Int, $v: "+tt+" = "+lit+") { f(a: $v) }", "", vars)
+	case "reqp":
+		// the caller's value takes precedence over the default of the variable
+		res = root.ResolveString("query($u: Int = 1, $v: "+tt+" = "+decoyDefault(l[2])+") { f(a: $v) }", "",
+			map[string]interface{}{"v": coerceGoValue(l[3])})
+	default:
+		return sx.L("bad-dir")
+	}
+	if _, has := res["errors"]; has {
+		if rr.called {
+			return sx.L("err-and-called")
+		}
+		return sx.L("err")
+	}
+	if !rr.called {
+		return sx.L("no-error-no-call")
+	}
+	return sx.L("ok", canonOut(rr.arg, l[3]))
 }
 
 // coerceSliceExec: a list field of a scalar type whose resolver returns a slice of the values - a
@@ -547,10 +749,33 @@ func coerceGen(dir string) func(r *rand.Rand, tier string) []Case {
 	return func(r *rand.Rand, tier string) []Case {
 		var cases []Case
 		n := 0
+		reqEvery := 4 // every n-th input case also travels through a request (quick tier)
+		if tier == "thorough" {
+			reqEvery = 1
+		}
 		add := func(t, v sx.S, tags ...string) {
 			n++
 			cases = append(cases, Case{ID: fmt.Sprintf("k%d", n), Input: sx.L("coerce", dir, t, v),
 				Tags: append(tags, "nontrivial"), Human: sx.String(t) + " <- " + sx.String(v)})
+			if dir == "in" && n%reqEvery == 0 && sdlType(t) {
+				if lit, ok := coerceLitText(v); ok {
+					cases = append(cases, Case{ID: fmt.Sprintf("k%dl", n), Input: sx.L("coerce", "reql", t, v),
+						Tags: append(append([]string{}, tags...), "nontrivial", "request-literal"), Human: "{ f(a: " + lit + ") } with a: " + coerceTypeText(t)})
+				}
+				cases = append(cases, Case{ID: fmt.Sprintf("k%dv", n), Input: sx.L("coerce", "reqv", t, v),
+					Tags: append(append([]string{}, tags...), "nontrivial", "request-variable"), Human: "query($v: " + coerceTypeText(t) + ") { f(a: $v) } with v = " + sx.String(v)})
+				if lit, ok := coerceLitText(v); ok && n%(2*reqEvery) == 0 {
+					d := fmt.Sprintf("reqd%d", (n/(2*reqEvery))%4)
+					cases = append(cases, Case{ID: fmt.Sprintf("k%dd", n), Input: sx.L("coerce", d, t, v),
+						Tags: append(append([]string{}, tags...), "nontrivial", "request-variable-default"),
+						Human: "query($u: Int, $v: " + coerceTypeText(t) + " = " + lit + ") { f(a: $v) } (" + d + ": no value / empty map / other variable only / null given)"})
+				}
+				if vs, isAtom := v.(string); (!isAtom || vs != "nil") && n%(2*reqEvery) == reqEvery%(2*reqEvery) {
+					cases = append(cases, Case{ID: fmt.Sprintf("k%dp", n), Input: sx.L("coerce", "reqp", t, v),
+						Tags: append(append([]string{}, tags...), "nontrivial", "request-variable-over-default"),
+						Human: "query($u: Int = 1, $v: " + coerceTypeText(t) + " = " + decoyDefault(t) + ") { f(a: $v) } with v = " + sx.String(v)})
+				}
+			}
 		}
 		leaves := leafValues()
 		var types []sx.S
@@ -640,7 +865,10 @@ func coerceGen(dir string) func(r *rand.Rand, tier string) []Case {
 				out := []sx.S{"m"}
 				for _, f := range sx.List(tl[2])[1:] {
 					fl := sx.List(f)
-					if r.Intn(4) != 0 {
+					switch x := r.Intn(8); {
+					case x == 0: // the key is there, holding an explicit null
+						out = append(out, sx.L(fl[1], "nil"))
+					case x < 6:
 						out = append(out, sx.L(fl[1], genV(fl[2], d+1)))
 					}
 				}
@@ -679,6 +907,22 @@ func coerceGen(dir string) func(r *rand.Rand, tier string) []Case {
 	}
 }
 
+// inputTypesAsDeclared: an input object type in a case is the library's T40 / T41 as the schema of
+// this harness declares it (a shrunk case must not describe another type than the one that runs)
+func inputTypesAsDeclared(t sx.S) bool {
+	switch sx.Head(t) {
+	case "l", "nn":
+		return inputTypesAsDeclared(sx.List(t)[1])
+	case "input":
+		want := input41
+		if sx.List(t)[1].(string) == "40" {
+			want = input40
+		}
+		return sx.String(t) == sx.String(mustParse(want))
+	}
+	return true
+}
+
 func coerceValid(input sx.S) bool {
 	l := sx.List(input)
 	if sx.Head(input) != "coerce" || len(l) != 4 {
@@ -697,6 +941,23 @@ func coerceValid(input sx.S) bool {
 	}
 	_ = coerceType(root, l[2])
 	_ = coerceGoValue(l[3])
+	if !inputTypesAsDeclared(l[2]) {
+		return false
+	}
+	if d := l[1].(string); strings.HasPrefix(d, "req") {
+		_, ok := coerceLitText(l[3])
+		vs, isAtom := l[3].(string)
+		switch {
+		case !sdlType(l[2]):
+			return false
+		case (d == "reql" || strings.HasPrefix(d, "reqd")) && !ok:
+			return false
+		case d == "reqp" && isAtom && vs == "nil":
+			return false
+		case d != "reql" && d != "reqv" && d != "reqp" && d != "reqd0" && d != "reqd1" && d != "reqd2" && d != "reqd3":
+			return false
+		}
+	}
 	return true
 }
 
